@@ -47,6 +47,8 @@ pub struct ProtoCheck {
     pub nested_releases: u64,
     /// thread -> number of open bodies of functions with cycle recovery (harness markers)
     cyc_open: BTreeMap<u64, u32>,
+    /// wake-ups with a result other than completed whose owner was inside a cycle span
+    pub failed_wakes_in_span: u64,
 }
 
 #[derive(Default, Clone, Copy, PartialEq, Eq)]
@@ -157,6 +159,13 @@ impl ProtoCheck {
                 T::Wake { thread, result } => {
                     if *result != 0 {
                         self.wakes_not_completed += 1;
+                    }
+                    if *result != 0 {
+                        if let Some(o) = self.waitfor.get(thread) {
+                            if self.cyc_open.get(o).copied().unwrap_or(0) > 0 {
+                                self.failed_wakes_in_span += 1;
+                            }
+                        }
                     }
                     if *result == 2 {
                         if let Some((key, _)) = self.pending.get(thread) {
